@@ -23,7 +23,7 @@ RULE = ('(a) seeded 2-D integrator histories: chunks / predict / set_pva, initia
         'C10) with an initial state whose VD is non-zero; non-trivial = non-zero supplied VD or non-level specific force or a '
         'filter run (the existing 2-D tests are level and drop the affected columns); distinct = distinct seeds')
 ASSUMPTIONS = ['zero means == 0.0 (either sign of zero); altitude equality is bitwise']
-REQUIRED_OBS = ['twoD_rows_checked', 'set_pva_calls', 'predict_calls', 'filter_rows_checked', 'sd_tables_checked',
+REQUIRED_OBS = ['coarse_initial_position_runs', 'twoD_rows_checked', 'set_pva_calls', 'predict_calls', 'filter_rows_checked', 'sd_tables_checked',
                 'measurement_rows_checked', 'feedback_runs', 'feedforward_runs']
 REQUIRED_CLASSES = {'all': ['history', 'feedback', 'feedforward']}
 
@@ -64,12 +64,24 @@ def run_case(case):
     rng = np.random.Generator(np.random.PCG64(case['seed'] + 3))
     traj = S['traj']
     err = pd.Series(S['init_err'], index=['north', 'east', 'down', 'VN', 'VE', 'VD', 'roll', 'pitch', 'heading'])
+    coarse = case['cls'] == 'feedback' and case['seed'] % 3 == 0
+    pos_sd = 5.0
+    if coarse:
+        # a coarse initial position (kilometres) and at least one position fix: the first correction is large
+        err[['north', 'east']] = rng.uniform(1500, 4000, 2) * rng.choice([-1, 1], 2)
+        pos_sd = 3000.0
+        from pyins import measurements
+        t_fix = S['times'][np.linspace(1, len(S['times']) - 2, 4).astype(int)]
+        fix = measurements.Position(sim.generate_position_measurements(schedules.truth_at(t_fix), 1.0, 3), 1.0)
+        S['measurements'] = [m for m in (S['measurements'] or []) if type(m).__name__ != 'Position'] + [fix]
+        S['describe'] = dict(S['describe'], coarse_initial_position=err[['north', 'east']].tolist())
+        obs['coarse_initial_position_runs'] = 1
     initial = sim.perturb_pva(traj.iloc[0], err)
     initial['VD'] = float(rng.uniform(-5, 5))            # the caller's state need not be level
     events.start()
     try:
         if case['cls'] == 'feedback':
-            r = filters.run_feedback_filter(initial, 5, 1, 0.5, 1.0, S['increments'], S['gyro_model'], S['accel_model'],
+            r = filters.run_feedback_filter(initial, pos_sd, 1, 0.5, 1.0, S['increments'], S['gyro_model'], S['accel_model'],
                                             measurements=S['measurements'], time_step=S['time_step'], with_altitude=False)
             obs['feedback_runs'] = 1
         else:
